@@ -1,6 +1,47 @@
-//! Harness for property C02 (stub: not built yet).
+//! C02 — every index answers exactly from the stored documents.
+//!
+//! Case = a history over one collection with the fixed schema of `engine.rs` (unique scalar,
+//! unique optional text, unique array, plain scalar, optional i64, array, map-keyed, two texts, a
+//! vector): index creation (with backfill) / removal through close + open, add / update / remove
+//! with rejected operations mixed in (unique conflicts on the 1st/2nd/3rd index, schema violations,
+//! unknown fields, missing ids, a vector of the wrong dimension failing in the third index family).
+//! After every operation the whole observable state is dumped (ids, len, every document, every
+//! B-tree key → ids relation through two read paths plus the public Eq / Ge filters, BM25 postings per
+//! vocabulary term, HNSW count and search) and
+//!   * compared with the Lean model's dump (`drv_c02`): correspondence;
+//!   * compared with the indexes recomputed from the fetched documents, both directions (holes and
+//!     phantoms): independent oracle.
+mod engine;
+use engine::*;
+use vh_common::serde_json::json;
+use vh_common::*;
+
 fn main() {
-    let a = vh_common::Args::parse();
-    let r = vh_common::Report::new("C02", &a, "stub");
-    r.write(&a);
+    let args = Args::parse();
+    let mut rep = Report::new(
+        "C02",
+        &args,
+        "case = generated history (10..28 data ops + index create/remove/reopen groups) over the fixed 10-field schema with up to 9 B-tree, \
+         2 BM25 and 1 HNSW index; distinct = distinct op list; non-trivial = at least one accepted add and a non-empty index relation at the end",
+    );
+    let rt = tokio::runtime::Builder::new_current_thread().enable_all().build().unwrap();
+    let mut model = ModelProc::from_args(&args);
+    let mut cases: Vec<(String, Vec<String>)> = vec![];
+    if let Some(p) = &args.replay {
+        cases.push(("replay".into(), read_replay(p)));
+    } else {
+        if let Some(dir) = &args.corpus { cases.extend(read_corpus(dir)); }
+        let n = args.budget(700, 20000);
+        for i in 0..n {
+            let mut r = Rng::for_case(args.seed, i);
+            let g = GenCfg { universe: *r.pick(&[2, 3, 5, 9]), n_ops: 10 + r.usize(19), malformed: 6 };
+            cases.push((format!("gen{i}"), gen_case(&mut r, &g)));
+        }
+    }
+    let mut reported = 0;
+    for (name, ops) in &cases {
+        if check_case(&rt, name, ops, &mut model, &mut rep, args.replay.is_none() && reported < 3) { reported += 1; }
+        if rep.samples.len() < 3 { rep.sample(json!({"case": name, "ops": ops.iter().take(40).collect::<Vec<_>>()})); }
+    }
+    rep.write(&args);
 }
